@@ -481,16 +481,41 @@ class C04Check(StatCheck):
             cls = IncrementalPFI if ex == "pfi" else IncrementalSage
             e = cls(model_function=model, loss_function=sq_loss, feature_names=names, storage=storage, imputer=imputer,
                     n_inner_samples=n, dynamic_setting=True, smoothing_alpha=1.0)
-            x, y = c04_row(100, d), 2.25
+            x, y = c04_row(10 ** 7, d), 2.25               # a tag no stored row will ever carry
             e.explain_one(x, y, update_storage=False)       # first call only counts the sample
             l0 = sq_loss(y, {"output": model.f(x)})
             expected = self.expected_contributions(cell, model, rows, x, y, l0)
             contrib_sum = {f: 0.0 for f in names}
             contrib_sq = {f: 0.0 for f in names}
+            # "defined by the CURRENT storage contents": with a window storage the content is a moving target - another
+            # party pushes a new row before every trial, so the window slides while its length stays m
+            sliding = cell["storage"] == "interval"
+            next_tag = m
+            base_tag = 0
+            if sliding:
+                expected = None
             for _ in range(R):
+                if sliding:
+                    storage.update(c04_row(next_tag, d), 0.5)
+                    next_tag += 1
+                    base_tag = next_tag - m
+                    probes["window_slid"] += 1
                 del model.log[:]
                 vals = e.explain_one(x, y, update_storage=False)
                 log = model.log
+                if sliding:
+                    stale = None
+                    for inp in log[1:]:
+                        for f in names:
+                            if inp[f] != x[f] and not (base_tag <= c04_tag(inp[f]) < next_tag):
+                                stale = (f, inp[f])
+                    if stale:
+                        det = ("row-not-currently-stored", "feature %s imputed with %r, a value of no row in the current "
+                               "window (tags %d..%d)" % (stale[0], stale[1], base_tag, next_tag - 1))
+                        break
+                    # positions inside the current window play the role of row indices
+                    log = [log[0]] + [{f: (v if v == x[f] else (c04_tag(v) - base_tag) * 8 + j + 1)
+                                       for j, (f, v) in enumerate(((f, inp[f]) for f in names))} for inp in log[1:]]
                 if len(log) != 1 + d * n:
                     det = ("evaluation-count", "%d model evaluations in one step, expected %d" % (len(log), 1 + d * n))
                     break
